@@ -16,10 +16,12 @@ CONSTANTS
     DirChoices,         \* [name -> set of records [nodes: Seq(node), unks: Seq(name), vals: Seq(Rat)]]
     NeuChoices,         \* same shape
     MaxConds,           \* number of conditions entered before the solve
+    MaxRounds,          \* number of condition sets solved one after the other on the same object (1: no Reset)
     Emit
 
-VARIABLES sys, dirs, neus, x, phase, hist
-vars == <<sys, dirs, neus, x, phase, hist>>
+VARIABLES sys, dirs, neus, x, phase, hist,
+          prev      \* the rounds solved before on the same object (Reset = Bc_Init(): the conditions are cleared, the object is kept)
+vars == <<sys, dirs, neus, x, phase, hist, prev>>
 
 Def == SysDef[sys]
 NDof == Def.nn * Def.dofn
@@ -81,30 +83,41 @@ Solution ==
     IN  [i \in 1..NDof |-> IF (i - 1) \in Known THEN Xc(i - 1) ELSE xf[IndexOf(f, i - 1)]]
 
 ---------------------------------------------------------------------------
-Init == /\ sys \in SysNames /\ dirs = <<>> /\ neus = <<>> /\ x = <<>> /\ phase = "enter" /\ hist = <<>>
+Init == /\ sys \in SysNames /\ dirs = <<>> /\ neus = <<>> /\ x = <<>> /\ phase = "enter" /\ hist = <<>> /\ prev = <<>>
 
 AddDir(c) ==
     /\ phase = "enter" /\ Len(dirs) + Len(neus) < MaxConds
     /\ dirs' = Append(dirs, c)
     /\ hist' = Append(hist, [op |-> "dir", c |-> c])
-    /\ UNCHANGED <<sys, neus, x, phase>>
+    /\ UNCHANGED <<sys, neus, x, phase, prev>>
 
 AddNeu(c) ==
     /\ phase = "enter" /\ Len(dirs) + Len(neus) < MaxConds
     /\ neus' = Append(neus, c)
     /\ hist' = Append(hist, [op |-> "neu", c |-> c])
-    /\ UNCHANGED <<sys, dirs, x, phase>>
+    /\ UNCHANGED <<sys, dirs, x, phase, prev>>
 
 Solve ==
     /\ phase = "enter" /\ dirs # <<>> /\ Regular
     /\ x' = Solution
     /\ phase' = "solved"
     /\ hist' = Append(hist, [op |-> "solve", c |-> [nodes |-> <<>>, unks |-> <<>>, vals |-> <<>>]])
-    /\ UNCHANGED <<sys, dirs, neus>>
+    /\ UNCHANGED <<sys, dirs, neus, prev>>
+
+(* Bc_Init() after a solve: the conditions are cleared and another set is entered and solved ON THE SAME OBJECT.  The solution of  *)
+(* a round is a function of that round's conditions alone (Solution reads dirs and neus, nothing of prev): whatever the object  *)
+(* keeps from one solve to the next (factorisations, maps, vectors) must not show.                                              *)
+RoundRec == [steps |-> hist, x |-> x, known |-> Known, free |-> Free, dir |-> DirEntries, neu |-> NeuEntries]
+Reset ==
+    /\ phase = "solved" /\ Len(prev) + 1 < MaxRounds
+    /\ prev' = Append(prev, RoundRec)
+    /\ dirs' = <<>> /\ neus' = <<>> /\ hist' = <<>> /\ phase' = "enter"
+    /\ UNCHANGED <<sys, x>>
 
 Next == \/ \E c \in DirChoices[sys] : AddDir(c)
         \/ \E c \in NeuChoices[sys] : AddNeu(c)
         \/ Solve
+        \/ Reset
 Spec == Init /\ [][Next]_vars
 
 ---------------------------------------------------------------------------
@@ -117,7 +130,9 @@ Holds ==
       /\ \A i \in Free : RowDot(i, Dofs) = B(i)
       /\ \A o \in OrphanDofs \cap Free : x[o + 1] = B(o)
 
-EmitOK == (Emit /\ phase = "solved") =>
+EmitChain == (Emit /\ phase = "solved" /\ MaxRounds > 1 /\ Len(prev) + 1 = MaxRounds) =>
+    PrintT(<<"CHAIN", ToJson([sys |-> sys, rounds |-> Append(prev, RoundRec)])>>)
+EmitOK == (Emit /\ phase = "solved" /\ MaxRounds = 1) =>
     PrintT(<<"BEH", ToJson([sys |-> sys, steps |-> hist, x |-> x, known |-> Known, free |-> Free,
                              dir |-> DirEntries, neu |-> NeuEntries])>>)
 =============================================================================
